@@ -1211,6 +1211,25 @@ class Interp:
         if isinstance(e.func, ast.Name) and e.func.id == 'super' and \
                 not e.args:
             return models.make_super(self, fr)
+        if isinstance(e.func, ast.Attribute) and \
+                e.func.attr in ('extend', 'append') and \
+                isinstance(e.func.value, ast.Name) and len(e.args) == 1 \
+                and not e.keywords and e.func.value.id in fr.env:
+            base = fr.env[e.func.value.id]
+            if isinstance(base, T) and self._listish(base):
+                # a local symbolic list: model the mutation by rebinding
+                # the name (sound as long as nothing aliases the list)
+                others = [k for k, v in fr.env.items()
+                          if v is base and k != e.func.value.id]
+                if others:
+                    self.inexact('mutation of an aliased symbolic list')
+                arg = self.termify(self.eval(e.args[0], fr))
+                if e.func.attr == 'append':
+                    arg = T('list', arg)
+                new = T('binop', '+', base, arg)
+                self.types[new] = 'list'
+                fr.env[e.func.value.id] = new
+                return K(None)
         f = self.eval(e.func, fr)
         args = []
         for a in e.args:
@@ -1230,6 +1249,17 @@ class Interp:
             else:
                 kwargs[k.arg] = v
         return self.call(f, args, kwargs)
+
+    def _listish(self, t):
+        if self.types.get(t) == 'list':
+            return True
+        if t.op == 'slice':
+            return self._listish(t.args[0]) if isinstance(t.args[0], T) \
+                else False
+        if t.op == 'binop' and t.args[0] == '+':
+            return any(isinstance(x, T) and self._listish(x)
+                       for x in t.args[1:])
+        return False
 
     def ex_BoolOp(self, e, fr):
         is_and = isinstance(e.op, ast.And)
